@@ -272,7 +272,7 @@ def run(tier, seed):
     total = Result()
     types = EST + HISTS + ['Quantile', 'Quantile']
     if tier == 'quick':
-        nprog, maxlen, maxpos, variants, mult = 480, 14, 15, [('release', 1.0), ('dev', 0.3)], 1
+        nprog, maxlen, maxpos, variants, mult = 2400, 14, 15, [('release', 1.0), ('dev', 0.3)], 1
     else:
         nprog, maxlen, maxpos, variants, mult = 12000, 40, 41, [('release', 1.0), ('dev', 0.2)], 8
     try:
